@@ -163,6 +163,31 @@ pub fn gen(seed: u64, thorough: bool) {
             out.line(&format!("c06 {}", hex(v.as_bytes())));
         }
     }
+    // wide objects with repeated member names (every member's value is its position in the text): the relative order of
+    // members with EQUAL names is observable — kept in the default build, and by a STABLE sort in the sort_keys build (an
+    // in-place pattern-defeating sort is stable only up to 20 elements)
+    let pools: &[&[&str]] = &[&["a", "b"], &["k", "k", "j"], &["x"], &["b", "a", "c", "aa", "ab", "", "\\u0061"], &["m1", "m2", "m3", "m4", "m5", "m6", "m7", "m8", "m9"]];
+    let widths: Vec<usize> = if thorough { (1..=130).collect() } else { vec![2, 7, 19, 20, 21, 22, 25, 32, 33, 47, 64, 80, 130] };
+    for (pi, pool) in pools.iter().enumerate() {
+        for &w in &widths {
+            for shape in 0..3 {
+                let mut members = String::new();
+                for i in 0..w {
+                    if i > 0 {
+                        members.push(',');
+                    }
+                    let k = if shape == 2 { pool[(i * 7 + pi) % pool.len()] } else { *r.pick(pool) };
+                    members.push_str(&format!("\"{k}\":{i}"));
+                }
+                let doc = match shape {
+                    0 => format!("{{{members}}}"),
+                    1 => format!("[{{{members}}},{{\"z\":{{{members}}}}}]"),
+                    _ => format!("{{\"outer\":{{{members}}},\"outer\":0}}"),
+                };
+                out.line(&format!("c06 {}", hex(doc.as_bytes())));
+            }
+        }
+    }
     let n = if thorough { 40000 } else { 3000 };
     let cfg = GenCfg { max_depth: 5, max_items: 6, ws: true, dup_keys: true, long_strings: true };
     for _ in 0..n {
